@@ -34,6 +34,7 @@ struct C14 : Scenario {
         o.min_rot_steps = 2;
         o.max_rot_steps = tier == "quick" ? 5 : 9;
         Cfg c = swarm_cfg(r, o);
+        if (r.chance(0.3)) vary_machine(r, c);
         if (c.outstep > 6) c.outstep = r.pick(std::vector<long>{1, 2, 3});
         if (c.currents.size() > 1) { c.padding = std::min(c.padding, 2.0); }
         if (o.allow_tracking && r.chance(0.4)) {
